@@ -90,10 +90,12 @@ Fixpoint al_set {V} (k : str) (v : V) (l : list (str * V)) : list (str * V) :=
   | [] => [(k, v)]
   | (k', v') :: r => if str_eqb k k' then (k', v) :: r else (k', v') :: al_set k v r
   end.
+(* dict.pop(k, None): keys are unique in lists built by al_set, so removing every binding of k
+   is the same as removing the one that is there *)
 Fixpoint al_del {V} (k : str) (l : list (str * V)) : list (str * V) :=
   match l with
   | [] => []
-  | (k', v') :: r => if str_eqb k k' then r else (k', v') :: al_del k r
+  | (k', v') :: r => if str_eqb k k' then al_del k r else (k', v') :: al_del k r
   end.
 
 Fixpoint set_mem (e : eid) (l : list eid) : bool :=
